@@ -589,11 +589,10 @@ class C2Profile(ConfigBlock):
                 proc_inj.set_option("min_alloc", value)
             elif setting == BeaconSetting.SETTING_PROCINJ_TRANSFORM_X86:
                 steps = []
-                prepend = ""
-                append = ""
+                prepend = b""
+                append = b""
                 for k, v in value:
-                    # v = v.decode()
-                    v = repr(v)[2:-1]
+                    # the bytes are handed over as they are, value_to_string() escapes them
                     if k == "prepend":
                         prepend = v
                     elif k == "append":
@@ -608,10 +607,9 @@ class C2Profile(ConfigBlock):
             elif setting == BeaconSetting.SETTING_PROCINJ_TRANSFORM_X64:
                 steps = []
                 # proc_inj.set_config_block("transform_x64", DataTransformBlock(steps=steps))
-                prepend = ""
-                append = ""
+                prepend = b""
+                append = b""
                 for k, v in value:
-                    v = repr(v)[2:-1]
                     if k == "prepend":
                         prepend = v
                     elif k == "append":
